@@ -201,10 +201,16 @@ def leanchecker(pid: str, timeout=1800):
 # --------------------------------------------------------------------------- findings
 
 def load_findings():
-    path = os.path.join(VERIF, "KNOWN_FINDINGS.json")
-    if not os.path.exists(path):
-        return []
-    return json.load(open(path)).get("findings", [])
+    """KNOWN_FINDINGS.json (+ per-property proposals under known_findings/); read-only at run time"""
+    out = []
+    paths = [os.path.join(VERIF, "KNOWN_FINDINGS.json")]
+    d = os.path.join(VERIF, "known_findings")
+    if os.path.isdir(d):
+        paths += [os.path.join(d, f) for f in sorted(os.listdir(d)) if f.endswith(".json")]
+    for path in paths:
+        if os.path.exists(path):
+            out += json.load(open(path)).get("findings", [])
+    return out
 
 
 def known_signatures(pid: str):
